@@ -252,6 +252,9 @@ pub struct SerdeCfg {
     /// diagnostics only: the transport delivers this entry twice (duplication); the decoded container must still be well-formed
     #[serde(default)]
     pub dup_at: Option<u16>,
+    /// token transport: decode through `Deserialize::deserialize_in_place` into a target that already holds entries
+    #[serde(default)]
+    pub in_place: bool,
 }
 
 #[derive(Clone, Debug, Serialize, Deserialize, PartialEq, Eq)]
@@ -321,6 +324,14 @@ pub enum Op {
     Serde { t: T, set: bool, cfg: SerdeCfg },
     /// large-capacity configuration (C06): a `Map<u32, u64, 256>` filled with `fill` entries; `sel` picks how many keys `get_disjoint_mut` is given at once (3 ... 256)
     BigDisjoint { fill: u16, sel: u8 },
+    /// Display / Debug of a `Set` (or the keys of a `Map`) of `n` zero-sized elements whose `==` is never true
+    /// (a lawful `PartialEq`, like NaN): several equal-looking zero-sized elements at one address
+    FmtIrreflexive { n: u8, map: bool, style: Style, #[serde(default)] spec: u8 },
+    /// one container's consuming iterator / drain is the source of another's bulk construction:
+    /// `how` 0 set.extend(map.drain()), 1 set = map.into_iter().collect(), 2 set.extend(set.drain()),
+    /// 3 set.extend(set.into_iter()), 4 set.extend(map.into_iter()), 5 set = map.drain().collect();
+    /// keys are projected (class / 2) so that they collide
+    Transfer { from: T, how: u8 },
     // ---- resource / placement
     /// insert fresh keys until full
     Fill { t: T, set: bool },
